@@ -1,4 +1,4 @@
 SPECIFICATION Spec
-CONSTANTS SS = 4 Lens = {0, 5} AliasFix = FALSE OmitFix = TRUE HdrLimit = "ok"
+CONSTANTS SS = 4 Lens = {0, 5} AliasFix = FALSE OmitFix = TRUE WipesKey = FALSE HdrLimit = "ok"
 INVARIANTS NotBad
 CHECK_DEADLOCK FALSE
